@@ -97,6 +97,10 @@ class Model(HoloPyObject):
     def _iteritems(self):
         keys = ['_dummy_scatterer', 'theory', '_parameters',
                 '_parameter_names', '_maps']
+        if len(self.constraints) > 0:
+            keys.append('constraints')
+        if hasattr(self, 'calc_func'):
+            keys.append('calc_func')
         for key in keys:
             item = getattr(self, key)
             if isinstance(item, np.ndarray) and item.ndim == 1:
@@ -117,6 +121,9 @@ class Model(HoloPyObject):
         kwargs = {'scatterer': scatterer, 'theory': theory}
         for key in ['optics', 'model']:
             kwargs.update(read_map(maps[key], parameters))
+        for key in ['constraints', 'calc_func']:
+            if key in fields:
+                kwargs[key] = fields[key]
         model = cls(**kwargs)
         # The saved maps, parameters and names are the complete record of
         # the model's parameterization, including ties made with add_tie
